@@ -56,11 +56,27 @@ def _msg_param(fi, ctx):
     raise AnalysisError(f"{fi.qual}: cannot identify the Message parameter")
 
 
+def _message_related(repo, ci):
+    """ci is Message, one of its bases (a field of Message may live in, and be written by methods of, a base class
+    it was pulled up into) or a subclass."""
+    msg = repo.cls("Message", MSG)
+    return ci is not None and (any(c == ci for c in repo.mro(msg)) or any(c == msg for c in repo.mro(ci)))
+
+
+def _msg_owner(repo, f):
+    """f is one of Message's own owner methods (__init__ / the blocks setter), wherever in Message's MRO it lives."""
+    if f.cls is None or not f.qual.startswith(f.cls.name + "."):
+        return False
+    msg = repo.cls("Message", MSG)
+    key = f.qual[len(f.cls.name) + 1:]
+    return f"Message.{key}" in MSG_RAW_OWNERS and any(c == f.cls for c in repo.mro(msg))
+
+
 def _is_message_field_store(repo, f, st):
     """`self.<attr>` inside a class other than Message is that class' own attribute."""
     recv = st.path.rsplit(".", 1)[0]
     if recv == "self" and f.cls is not None:
-        return any(c.name == "Message" for c in repo.mro(f.cls))
+        return _message_related(repo, f.cls)
     return True
 
 
@@ -116,7 +132,7 @@ def r1(ctx):
     des_cls = hf.cls
 
     def direct_owner(f, extra=()):
-        if f.qual in MSG_RAW_OWNERS or f.qual in extra:
+        if _msg_owner(repo, f) or f.qual in extra:
             return True
         return f.cls is not None and des_cls is not None and f.cls == des_cls and f.qual in des_owners
 
@@ -131,7 +147,7 @@ def r1(ctx):
         ok = owner_ok(f)
         msg = "" if ok else "raw_body written outside its owners: the lazy-parse state machine no longer " \
                             "guarantees that an unparsed body is the bytes that arrived"
-        if ok and f.qual in MSG_RAW_OWNERS:
+        if ok and _msg_owner(repo, f):
             ok = st.kind == "assign" and isinstance(st.value, ast.Constant) and st.value.value is None
             msg = "" if ok else "Message itself may only clear raw_body (a constructed/clobbered message has no wire body)"
         ctx.ob("C02.R1", f"{f.qual}: store {st.path} = {norm(st.value) if st.value is not None else st.kind}",
@@ -147,7 +163,7 @@ def r1(ctx):
     blk_w = [(f, st) for f, st in _writers(repo, "_blocks") if _is_message_field_store(repo, f, st)]
     ctx.floor("C02.R1", "stores to Message._blocks", len(blk_w), 2)
     for f, st in blk_w:
-        ok = f.qual in MSG_RAW_OWNERS
+        ok = _msg_owner(repo, f)
         msg = "Message._blocks written outside Message.__init__ / the blocks setter"
         if not ok and owner_ok(f):
             # the restore site of the D2 repair: only while undoing a failed parse
@@ -197,6 +213,13 @@ def r1(ctx):
     ctx.ob("C02.R1", "serialize: unparsed raw body is written verbatim", len(raw_writes) >= 1 and not mangled, sf.where,
            "no write_bytes(<msg.raw_body>) with the untouched value" if not raw_writes else
            f"raw body transformed before being written: {norm(mangled[0]) if mangled else ''}")
+    # one snapshot: the presence test and the write must look at the same read of msg.raw_body - the lazy parse
+    # (another thread inspecting the message) clears the field between two reads
+    reads = [n for n in walk(sf.node, into_defs=True) if isinstance(n, ast.Attribute) and ap(n) == f"{m}.raw_body"
+             and isinstance(n.ctx, ast.Load)]
+    ctx.ob("C02.R1", "serialize: msg.raw_body is read once (test and write use one snapshot)", len(reads) == 1, sf.where,
+           f"{len(reads)} reads of {m}.raw_body: a lazy parse triggered between the presence test and the write hands "
+           f"write_bytes a body that is gone (None) - the unmodified datagram is not forwarded")
     for c in raw_writes:
         ctx.ob("C02.R1", f"serialize: {norm(c)} guarded by raw body present", raw_fact(c) is True, ctx.w(sf, c),
                "raw write not dominated by a `raw_body is not None` test")
@@ -536,7 +559,7 @@ def r3(ctx):
         for n in walk(f.node, into_defs=True):
             if isinstance(n, ast.Attribute) and n.attr == "_blocks" and isinstance(n.ctx, ast.Load):
                 recv = ap(n.value)
-                if recv == "self" and f.cls is not None and not any(c.name == "Message" for c in repo.mro(f.cls)):
+                if recv == "self" and f.cls is not None and not _message_related(repo, f.cls):
                     continue
                 loads.append((f, n))
     ctx.floor("C02.R3", "reads of Message._blocks", len(loads), 1)
@@ -657,6 +680,18 @@ def r4(ctx):
                 elif isinstance(v.func, ast.Name):
                     cands = [g for g in repo.funcs.get(v.func.id, []) if g.module is fn_.module and g.cls is None and g.parent_fn is None]
                     tgt = cands[0] if len(cands) == 1 else None
+                elif isinstance(v.func, ast.Attribute) and isinstance(v.func.value, ast.Name):
+                    # a method of a collaborator handed in as a parameter (`tmpl_variable.interpret(unpacked)`): the
+                    # class named by the parameter's annotation, else the only class in the tree with such a method
+                    ann = next((a_.annotation for a_ in fn_.node.args.args + fn_.node.args.kwonlyargs
+                                if a_.arg == v.func.value.id and a_.annotation is not None), None)
+                    oc = repo.resolve_class((ap(ann) or (ann.value if isinstance(ann, ast.Constant) else "") or "").split(".")[-1],
+                                            fn_.module) if ann is not None else None
+                    if oc is not None:
+                        tgt = repo.lookup_method(oc, v.func.attr)
+                    else:
+                        cands = [g for g in repo.funcs.get(v.func.attr, []) if g.cls is not None and g.parent_fn is None]
+                        tgt = cands[0] if len(cands) == 1 else None
             if tgt is not None:
                 decos = {(ap(d) or "").split(".")[-1] for d in tgt.node.decorator_list}
                 ps = [a.arg for a in tgt.node.args.args]
@@ -869,8 +904,9 @@ def r5(ctx):
     for n in truthy_skips:
         ctx.ob("C02.R5", f"{wf.qual}: skip keyed on truthiness of {bl}", False, ctx.w(wf, n),
                "a present-but-empty Variable block (count byte 0 on the wire) would be skipped: one byte lost")
-    emits = [c for c in calls(wloop) if isinstance(c.func, ast.Attribute) and ap(c.func.value) in ("self", "cls")
-             and any(ap(a) == bl for a in c.args)]
+    # whoever is handed the block list writes it: a method of the serializer or of a collaborator it delegates to
+    emits = [c for c in calls(wloop) if isinstance(c.func, ast.Attribute) and not (ap(c.func) or "").startswith(LOG_PREFIXES)
+             and any(ap(a) == bl for a in list(c.args) + [k.value for k in c.keywords])]
     ctx.floor("C02.R5", "block emission calls in the writer loop", len(emits), 1)
     for c in emits:
         ctx.ob("C02.R5", f"{wf.qual}: {norm(c)} runs for every present block", none_fact(c) is False and not truthy_fact(c),
@@ -908,26 +944,74 @@ def _eof_polarity(e, pol):
 
 # --------------------------------------------------------------------------- R6
 
-def _is_projection(e, var, consts):
-    """e selects / re-wraps components of `var` without computing anything from them."""
+def _is_projection(e, var, consts, helper=None):
+    """e selects / re-wraps components of `var` without computing anything from them.  `helper(call)` says whether a
+    self-method call returns a projection of its argument (callable-class packers)."""
     if isinstance(e, ast.Starred):
-        return _is_projection(e.value, var, consts)
+        return _is_projection(e.value, var, consts, helper)
     if isinstance(e, ast.Name):
         return e.id == var
     if isinstance(e, ast.Call):
         if isinstance(e.func, ast.Attribute) and e.func.attr in ("data", "bytes") and not e.args and not e.keywords:
-            return _is_projection(e.func.value, var, consts)
+            return _is_projection(e.func.value, var, consts, helper)
         if ap(e.func) in ("tuple", "list", "bytes") and len(e.args) == 1 and not e.keywords:
-            return _is_projection(e.args[0], var, consts)
+            return _is_projection(e.args[0], var, consts, helper)
+        if helper is not None and len(e.args) == 1 and not e.keywords and helper(e):
+            return _is_projection(e.args[0], var, consts, helper)
         return False
     if isinstance(e, ast.Subscript):
         def plain(b):
             return b is None or isinstance(b, ast.Constant) or (isinstance(b, ast.Name) and b.id in consts) or \
+                (isinstance(b, ast.Attribute) and isinstance(b.value, ast.Name) and b.value.id in ("self", "cls")) or \
                 (isinstance(b, ast.UnaryOp) and isinstance(b.operand, ast.Constant))
         sl = e.slice
         ok = (isinstance(sl, ast.Slice) and plain(sl.lower) and plain(sl.upper) and plain(sl.step)) or plain(sl)
-        return ok and _is_projection(e.value, var, consts)
+        return ok and _is_projection(e.value, var, consts, helper)
     return False
+
+
+def _pure_names(body, var, consts, helper):
+    """(names that only ever hold the value or a selection of its components - greatest fixpoint, all assigned names)"""
+    assigns = {}
+    for st in [x for b in body for x in walk(b)]:
+        if isinstance(st, ast.Assign):
+            for t in st.targets:
+                assigns.setdefault(ap(t) or norm(t), []).append(st.value)
+        elif isinstance(st, (ast.AugAssign, ast.AnnAssign)) and st.value is not None:
+            assigns.setdefault(ap(st.target) or norm(st.target), []).append(None)
+        elif isinstance(st, (ast.For, ast.comprehension)):
+            for t in ast.walk(st.target):
+                if isinstance(t, ast.Name):
+                    assigns.setdefault(t.id, []).append(None)
+    pure = set(assigns) | {var}
+    changed = True
+    while changed:
+        changed = False
+        for nm in list(pure):
+            if any(v is None or not any(_is_projection(v, q, consts, helper) for q in pure) for v in assigns.get(nm, [])):
+                pure.discard(nm)
+                changed = True
+    return pure, assigns
+
+
+def _method_projects(repo, ci, depth=0):
+    """helper(call) for packers that are methods of class ci: `self.m(<arg>)` returns a projection of its argument
+    when every return of m is a projection of m's parameter."""
+    def helper(call):
+        if depth > 3 or not (isinstance(call.func, ast.Attribute) and isinstance(call.func.value, ast.Name)
+                             and call.func.value.id in ("self", "cls")):
+            return False
+        m = repo.lookup_method(ci, call.func.attr)
+        if m is None:
+            return False
+        params = [a.arg for a in m.node.args.args][1:]
+        if len(params) != 1:
+            return False
+        inner = _method_projects(repo, ci, depth + 1)
+        pure, _a = _pure_names(m.node.body, params[0], set(), inner)
+        rets = [r for r in walk(m.node) if isinstance(r, ast.Return)]
+        return bool(rets) and all(r.value is not None and any(_is_projection(r.value, q, set(), inner) for q in pure) for r in rets)
+    return helper
 
 
 def r6(ctx):
@@ -938,61 +1022,54 @@ def r6(ctx):
     n = 0
     for fname in ("_make_struct_spec", "_make_tuplecoord_spec"):
         fac = repo.fn(fname, PACK)
-        consts = {a.arg for a in fac.node.args.args}
-        packers = [d for d in walk(fac.node, into_defs=True) if isinstance(d, (ast.FunctionDef, ast.Lambda)) and d is not fac.node
-                   and any(call_attr(c) == "pack" for c in calls(d, into_defs=True))]
-        # functools.partial(<module-level function>, <bound args>): the function is the packer, its remaining
-        # parameter the value, the bound ones are constants of the factory
-        partials = {}
+        fconsts = {a.arg for a in fac.node.args.args}
+        # (callable node, value parameter, constants, projection helper, label)
+        packers = []
+        for d in walk(fac.node, into_defs=True):
+            if isinstance(d, (ast.FunctionDef, ast.Lambda)) and d is not fac.node \
+                    and any(call_attr(c) == "pack" for c in calls(d, into_defs=True)):
+                params = [a.arg for a in d.args.args]
+                if len(params) != 1:
+                    raise AnalysisError(f"C02.R6: {fname}: packer with parameters {params}")
+                packers.append((d, params[0], fconsts, None, getattr(d, "name", "lambda")))
         for c in calls(fac.node, into_defs=True):
+            # functools.partial(<module-level function>, <bound args>): the function is the packer, its remaining
+            # parameter the value, the bound ones are constants of the factory
             if (ap(c.func) or "").split(".")[-1] == "partial" and c.args and isinstance(c.args[0], ast.Name):
                 for g in repo.funcs.get(c.args[0].id, []):
                     if g.module is fac.module and g.cls is None and g.parent_fn is None and \
                             any(call_attr(x) == "pack" for x in calls(g.node, into_defs=True)):
-                        partials[id(g.node)] = (g.node, len(c.args) - 1 + len(c.keywords))
-        packers = packers + [n for n, _k in partials.values()]
-        for d in packers:
-            params = [a.arg for a in d.args.args]
-            if id(d) in partials:
-                nbound = partials[id(d)][1]
-                consts = consts | set(params[:nbound])
-                params = params[nbound:]
-            if len(params) != 1:
-                raise AnalysisError(f"C02.R6: {fname}: packer with parameters {params}")
-            var = params[0]
+                        params = [a.arg for a in g.node.args.args]
+                        nbound = len(c.args) - 1 + len(c.keywords)
+                        if len(params) - nbound != 1:
+                            raise AnalysisError(f"C02.R6: {fname}: partial packer {g.qual} leaves parameters {params[nbound:]}")
+                        packers.append((g.node, params[nbound], fconsts | set(params[:nbound]), None, g.qual))
+            # Cls(<args>) where Cls defines __call__: the instance is the packer, what __init__ stored are constants
+            elif isinstance(c.func, ast.Name):
+                ci = repo.resolve_class(c.func.id, fac.module)
+                call_m = repo.lookup_method(ci, "__call__") if ci is not None else None
+                if call_m is not None and any(call_attr(x) == "pack" for x in calls(call_m.node, into_defs=True)):
+                    params = [a.arg for a in call_m.node.args.args][1:]
+                    if len(params) != 1:
+                        raise AnalysisError(f"C02.R6: {fname}: callable packer {ci.name} with parameters {params}")
+                    packers.append((call_m.node, params[0], set(), _method_projects(repo, ci), f"{ci.name}.__call__"))
+        seen = set()
+        for d, var, consts, helper, name in packers:
+            if id(d) in seen:
+                continue
+            seen.add(id(d))
             n += 1
-            name = getattr(d, "name", "lambda")
-            where = ctx.w(fac, d)
             body = d.body if isinstance(d, ast.FunctionDef) else [ast.Return(value=d.body)]
-            # names that only ever hold the value or a selection of its components (greatest fixpoint)
-            assigns = {}
-            for st in [x for b in body for x in walk(b)]:
-                if isinstance(st, ast.Assign):
-                    for t in st.targets:
-                        assigns.setdefault(ap(t) or norm(t), []).append(st.value)
-                elif isinstance(st, (ast.AugAssign, ast.AnnAssign)) and st.value is not None:
-                    assigns.setdefault(ap(st.target) or norm(st.target), []).append(None)
-                elif isinstance(st, (ast.For, ast.comprehension)):
-                    for t in ast.walk(st.target):
-                        if isinstance(t, ast.Name):
-                            assigns.setdefault(t.id, []).append(None)
-            pure = set(assigns) | {var}
-            changed = True
-            while changed:
-                changed = False
-                for nm in list(pure):
-                    if any(v is None or not any(_is_projection(v, q, consts) for q in pure) for v in assigns.get(nm, [])):
-                        pure.discard(nm)
-                        changed = True
+            pure, assigns = _pure_names(body, var, consts, helper)
             for c in [c for b in body for c in calls(b)]:
                 if call_attr(c) == "pack":
-                    ok = len(c.args) >= 1 and not c.keywords and all(any(_is_projection(a, q, consts) for q in pure) for a in c.args)
+                    ok = len(c.args) >= 1 and not c.keywords and all(any(_is_projection(a, q, consts, helper) for q in pure) for a in c.args)
                     bad = sorted(nm for nm in assigns if nm not in pure)
-                    ctx.ob("C02.R6", f"{fname}.{name}: `{norm(c)}` packs the value itself", ok, where,
+                    ctx.ob("C02.R6", f"{fname}.{name}: `{norm(c)}` packs the value itself", ok, ctx.w(fac, d),
                            f"pack() is given something computed from the value (recomputed locals: {bad}) - normalised / "
                            f"scaled / sign-flipped: a value parsed from the wire no longer packs to the bytes it came from")
         # bound method `struct_obj.pack` returned directly is a projection by construction
-    ctx.floor("C02.R6", "packer closures in the SPECS factories", n, 1)
+    ctx.floor("C02.R6", "packers (closures / partials / callable objects) in the SPECS factories", n, 1)
 
 
 def run(ctx):
